@@ -2516,3 +2516,44 @@ def std_collect(ex, itval):
 for _i, (_rx, _fn) in enumerate(PATTERN_PRIMS):
     if _rx.pattern == r'^<.* as Iterator>::collect$':
         PATTERN_PRIMS[_i] = (_rx, lambda ex, a: Agg('Vec', std_collect(ex, a[0])))
+
+
+# ------------------------------------------------------------------ raw pointers of Rc / Arc (addresses are modelled as distinct integers)
+def _addr(box):
+    return 0x10000 + 64 * box.id
+
+
+@prim('Rc::as_ptr', 'Arc::as_ptr', 'Weak::as_ptr')
+def _(ex, a):
+    return _addr(ex.deref(a[0]).box)
+
+
+@prim('Rc::into_raw', 'Arc::into_raw')
+def _(ex, a):
+    # the strong count is NOT given back: the caller owns it through the raw pointer
+    ex.raw_ptrs = getattr(ex, 'raw_ptrs', {})
+    ex.raw_ptrs[_addr(a[0].box)] = a[0].box
+    return _addr(a[0].box)
+
+
+@prim('Rc::from_raw', 'Arc::from_raw')
+def _(ex, a):
+    b = getattr(ex, 'raw_ptrs', {}).get(a[0])
+    if b is None:
+        raise Unsupported('from_raw of an unknown address')
+    return RcH(b)
+
+
+@prim('Ordering::then_with')
+def _(ex, a):
+    if a[0].variant != 0:
+        return a[0]
+    return ex.call_closure(a[1], [])
+
+
+@prim('ptr::eq')
+def _(ex, a):
+    x, y = a[0], a[1]
+    if isinstance(x, Ref) and isinstance(y, Ref):
+        return x.cell is y.cell and tuple(x.path) == tuple(y.path)
+    return x == y
